@@ -1223,10 +1223,10 @@ func H_C03_clnSpendPreimage() { vwSpend(vwPreimage, 3, false) }
 func H_C03_clnSpendCsv()      { vwSpend(vwCsv, 3, false) }
 func H_C03_clnSpendCoop()     { vwSpend(vwCoop, 2, false) }
 
-// Thorough tier: arbitrary keys / payment hash / preimage (maker != taker), <= 3 outputs.
+// Thorough tier: arbitrary keys / payment hash / preimage (maker != taker), <= 3 outputs (coop: <= 2).
 func H_C03_T_clnSpendPreimage() { vwSpend(vwPreimage, 3, true) }
 func H_C03_T_clnSpendCsv()      { vwSpend(vwCsv, 3, true) }
-func H_C03_T_clnSpendCoop()     { vwSpend(vwCoop, 3, true) }
+func H_C03_T_clnSpendCoop()     { vwSpend(vwCoop, 2, true) }
 
 // H_C03_clnSpendUnvalidatedOpening: an opening transaction that would NOT pass validation (2..3
 // outputs, output 0 carries the amount with another script, the swap output sits behind it): each
